@@ -6,7 +6,7 @@
 (* it returns "ok", "triv" (antecedent of the property false) or the name  *)
 (* of the first failing clause.                                            *)
 (***************************************************************************)
-EXTENDS UbxFrame, TLC, Json, IOUtils
+EXTENDS UbxFrame, UbxHelpers, TLC, Json, IOUtils
 
 Traces == JsonDeserialize(IOEnv.TRACE_FILE)
 
@@ -24,6 +24,12 @@ JudgeC01(e) ==
          ELSE IF e.payload # x.payload THEN "C01:payload"
          ELSE IF e.reprser # f THEN "C01:repr"
          ELSE "ok"
+
+\* growth beyond the listed properties: the TEXT of repr(msg) (C01 only asks that evaluating it gives the frame back)
+ReprNote(e) ==
+    IF ~("repr" \in DOMAIN e) \/ e.prop # "C01" \/ e.reprok # 1 \/ e.out # "msg" \/ ~WellFormed(e.f) \/ e.mmode \notin 0..2 THEN ""
+    ELSE LET x == Fields(e.f) IN
+         IF e.repr = MsgRepr(x.cls, x.id, e.mmode, x.payload) THEN "" ELSE "EXT:repr-text"
 
 \* ---- C05: validate=VALCKSUM accepts only well-formed frames, rejects with UBXParseError
 JudgeC05(e) ==
@@ -67,7 +73,10 @@ JudgeC08(e) ==
          ELSE LET i == CHOOSE i \in bad : \A j \in bad : i <= j IN
               "C08:inspect-" \o e.inspect[i][1] \o "-raised:" \o e.inspect[i][2]
 
-Judge(e) == CASE e.prop = "C01" -> JudgeC01(e)
+JudgeGate(e) == IF e.out = ModeGate(e.api, e.m) THEN "ok" ELSE "EXT:mode-gate:" \o e.api \o ":" \o e.out
+
+Judge(e) == CASE e.prop = "EXT-gate" -> JudgeGate(e)
+              [] e.prop = "C01" -> JudgeC01(e)
               [] e.prop = "C08" -> JudgeC08(e)
               [] e.prop = "C05" -> JudgeC05(e)
               [] e.prop = "C04" -> JudgeC04(e)
@@ -75,9 +84,12 @@ Judge(e) == CASE e.prop = "C01" -> JudgeC01(e)
 
 Init == tid \in 1..Len(Traces) /\ verdict = "pending"
 Next == /\ verdict = "pending"
-        /\ LET v == Judge(Traces[tid]) IN
+        /\ LET v == Judge(Traces[tid])
+               x == IF v = "ok" THEN ReprNote(Traces[tid]) ELSE ""
+           IN
              /\ verdict' = v
              /\ (v # "ok" => PrintT("V " \o ToString(tid) \o " " \o v))
+             /\ (x # "" => PrintT("E " \o ToString(tid) \o " " \o x))
         /\ UNCHANGED tid
 Spec == Init /\ [][Next]_<<tid, verdict>>
 =============================================================================
